@@ -14,6 +14,8 @@ C5  statements following an unconditional return / raise / break / continue in t
 C6  `if a != b: A else: B`      ->  `if a == b: B else: A`      (also `not in`, `is not`; else present, no elif involved)
 C7  `a > b` / `a >= b`           ->  `b < a` / `b <= a`
 C8  `x: T = v`                   ->  `x = v`                     (annotated assignment with a value; name or attribute target)
+C9  `for x in (A, B): S(x)`      ->  `S(A); S(B)`                (display of <= 8 plain / dotted names; body neither re-binds x nor breaks / continues)
+C10 `a, b = x, y`                ->  `a = x; b = y`              (plain name targets, none of which occurs in x, y)
 """
 from __future__ import annotations
 
